@@ -266,6 +266,8 @@ theorem createNextState_stakes (env : Env) (s : State) (txs : List Tx) (rel : Re
   simp only at h
   refine Outcome.foldlM'_inv (fun st : State => st.stakes = s.stakes) _ ?_ _ _ _ (by rfl) h
   intro b a b' hb hf
+  split at hf
+  · cases hf
   obtain ⟨st1, h1, hf⟩ := Outcome.bind_eq_ok hf
   obtain ⟨c2, _, hf⟩ := Outcome.bind_eq_ok hf
   obtain ⟨mf, _, hf⟩ := Outcome.bind_eq_ok hf
